@@ -66,6 +66,7 @@ type Config struct {
 	PanicIsViolation bool              // an uncaught Go panic on a feasible path is a violation
 	Inputs           map[string]uint64 // replay mode: fixed values for named inputs
 	NoMerge          bool
+	NoMergeFns       []string
 	Fixed            map[string]uint64 // debugging: inputs pinned to constants while the rest stay symbolic
 	NoFallback       bool
 	FallbackMs       int
